@@ -13,3 +13,109 @@ def gen_service_family():
         body += f"def {m.name.lower()} : Nat := {m.value}\n"
     body += "end XknxVerif.Generated.ServiceFamily\n"
     return body
+
+
+# --------------------------------------------------------------------------
+# C20/C21/C22: every enum and structure-length constant the KNX/IP frame
+# parsers declare, plus the service-type -> body-class dispatch of
+# KNXIPFrame.from_knx (which service types have a body class at all).
+# --------------------------------------------------------------------------
+
+def _enum_ns(ns, enum_cls):
+    rows = [f"({lean_str(m.name)}, {m.value})" for m in enum_cls]
+    body = f"namespace {ns}\n"
+    body += f"def members : List (String × Nat) := {lean_list(rows)}\n"
+    body += f"def codes : List Nat := {lean_list(str(m.value) for m in enum_cls)}\n"
+    for m in enum_cls:
+        body += f"def {m.name.lower()} : Nat := {m.value}\n"
+    body += f"end {ns}\n"
+    return body
+
+
+@section("KNXIPEnums")
+def gen_knxip_enums():
+    from xknx.knxip import knxip_enum as ke
+    from xknx.knxip.error_code import ErrorCode
+    from xknx.telegram.apci import ReturnCode
+
+    root = "XknxVerif.Generated.KNXIP"
+    out = ""
+    for name, cls in [
+        ("ServiceType", ke.KNXIPServiceType),
+        ("ErrorCode", ErrorCode),
+        ("ConnectRequestType", ke.ConnectRequestType),
+        ("TunnellingLayer", ke.TunnellingLayer),
+        ("DIBTypeCode", ke.DIBTypeCode),
+        ("HostProtocol", ke.HostProtocol),
+        ("KNXMedium", ke.KNXMedium),
+        ("DIBServiceFamily", ke.DIBServiceFamily),
+        ("SecureSessionStatusCode", ke.SecureSessionStatusCode),
+        ("SRPType", ke.SearchRequestParameterType),
+        ("TunnellingFeatureType", ke.TunnellingFeatureType),
+        ("ReturnCode", ReturnCode),
+    ]:
+        out += _enum_ns(f"{root}.{name}", cls)
+    return out
+
+
+@section("KNXIPConst")
+def gen_knxip_const():
+    import xknx.knxip as k
+    from xknx.knxip import (connect_request, connect_response, dib, secure_wrapper, srp, tunnelling_feature)
+    from xknx.knxip.body import KNXIPBody
+    from xknx.knxip.header import KNXIPHeader
+    from xknx.knxip.hpai import HPAI
+
+    consts = {
+        "headerLength": KNXIPHeader.HEADERLENGTH,
+        "protocolVersion": KNXIPHeader.PROTOCOLVERSION,
+        "hpaiLength": HPAI.LENGTH,
+        "criLength": connect_request.ConnectRequestInformation.CRI_LENGTH,
+        "criTunnelLength": connect_request.ConnectRequestInformation.CRI_TUNNEL_LENGTH,
+        "criTunnelExtLength": connect_request.ConnectRequestInformation.CRI_TUNNEL_EXT_LENGTH,
+        "crdLength": connect_response.ConnectResponseData.CRD_LENGTH,
+        "crdTunnelLength": connect_response.ConnectResponseData.CRD_TUNNEL_LENGTH,
+        "dibHeaderLength": dib.DIB_HEADER_LENGTH,
+        "dibDeviceInfoLength": dib.DIBDeviceInformation.LENGTH,
+        "connectionStateResponseLength": k.ConnectionStateResponse.LENGTH,
+        "disconnectResponseLength": k.DisconnectResponse.LENGTH,
+        "deviceConfigurationAckLength": k.DeviceConfigurationAck.BODY_LENGTH,
+        "deviceConfigurationRequestHeaderLength": k.DeviceConfigurationRequest.HEADER_LENGTH,
+        "tunnellingAckLength": k.TunnellingAck.BODY_LENGTH,
+        "tunnellingRequestHeaderLength": k.TunnellingRequest.HEADER_LENGTH,
+        "tunnellingFeatureHeaderLength": tunnelling_feature._TunnellingFeature.HEADER_LENGTH,
+        "tunnellingFeatureIdLength": tunnelling_feature._TunnellingFeature.FEATURE_ID_LENGTH,
+        "routingBusyLength": k.RoutingBusy.BODY_LENGTH,
+        "routingLostMessageLength": k.RoutingLostMessage.BODY_LENGTH,
+        "securityInformationLength": secure_wrapper.SECURITY_INFORMATION_LENGTH,
+        "macLength": secure_wrapper.MESSAGE_AUTHENTICATION_CODE_LENGTH,
+        "secureWrapperMinimumLength": secure_wrapper.SECURE_WRAPPER_MINIMUM_LENGTH,
+        "sessionRequestLength": k.SessionRequest.LENGTH,
+        "sessionResponseLength": k.SessionResponse.LENGTH,
+        "sessionAuthenticateLength": k.SessionAuthenticate.LENGTH,
+        "sessionStatusLength": k.SessionStatus.LENGTH,
+        "timerNotifyLength": k.TimerNotify.LENGTH,
+        "srpHeaderSize": srp.SRP.SRP_HEADER_SIZE,
+        "srpServicePayloadLength": srp.SRP.SERVICE_PAYLOAD_LENGTH,
+        "srpMacPayloadLength": srp.SRP.MAC_ADDRESS_PAYLOAD_LENGTH,
+    }
+
+    def subclasses(c):
+        for s in c.__subclasses__():
+            yield s
+            yield from subclasses(s)
+
+    # which service types have a body class (KNXIPFrame.from_knx dispatches on SERVICE_TYPE of these classes)
+    impl = {}
+    for c in subclasses(KNXIPBody):
+        st = getattr(c, "SERVICE_TYPE", None)
+        if st is not None and not c.__name__.startswith("_"):
+            impl[st] = c.__name__
+    body = "namespace XknxVerif.Generated.KNXIP.Const\n"
+    for n, v in consts.items():
+        body += f"def {n} : Nat := {int(v)}\n"
+    rows = [f"({lean_str(c)}, {st.value})" for st, c in sorted(impl.items(), key=lambda kv: kv[0].value)]
+    body += f"/-- body class name and service type code of every service type that has a body class -/\n"
+    body += f"def implemented : List (String × Nat) := {lean_list(rows)}\n"
+    body += "end XknxVerif.Generated.KNXIP.Const\n"
+    return body
